@@ -1,12 +1,12 @@
 SPECIFICATION Spec
 CONSTANTS
   MaxAttempts = 3
-  MaxTokens = 4
-  MaxDevs = 2
+  MaxTokens = 3
+  MaxDevs = 1
   MaxSteps = 11
   UseRPs = {"cw", "cj", "cp"}
   Modes = {"query", "form_post"}
-  Ops = {"Start", "Authorize", "Login", "OPCallback", "RPCallback", "Userinfo", "Introspect", "Refresh", "Revoke", "Expire", "EndSession", "DeviceStart", "DeviceApprove", "DevicePoll", "TokenExchange"}
+  Ops = {"Start", "Authorize", "Login", "OPCallback", "RPCallback", "Userinfo", "Introspect", "Refresh", "Revoke", "Expire", "EndSession", "DeviceStart", "DeviceApprove", "DevicePoll", "TokenExchange", "ClientCreds"}
 INVARIANT NoViolation
 VIEW View
 CHECK_DEADLOCK FALSE
